@@ -17,9 +17,9 @@ LEVEL_TEXT = ("renew-or-add and no-backdating (mutable container; immutable side
               "and non-interference of the container bytes in the secret for v2 containers proved in Lean; the model is tied "
               "to the code by comparing get_leases / get_slot_leases and the raw bytes of every container after each operation.")
 LEVEL_NOTE = ("Lean kernel + standard axioms; blake2b abstract (its values are supplied to the driver as a table computed by nacl); "
-              "timing_safe_compare modelled as equality; expiry times < 2^32; cancel_lease (not reachable through the server API) "
-              "is not modelled.")
-RULE = ("seeded histories of add_lease / renew_lease (repeated, fresh and unknown secrets) / read-test-write data writes over buckets "
+              "timing_safe_compare modelled as equality; expiry times < 2^32; cancel_lease is modelled and tied by correspondence "
+              "(its Lean theorems cover the unknown-secret case and WF/data preservation only).")
+RULE = ("seeded histories of add_lease / renew_lease (repeated, fresh and unknown secrets) / cancel_lease (holes in the lease table) / read-test-write data writes over buckets "
         "holding mutable (v1 fabricated, v2) or immutable (v1, v2 fabricated) containers with 0..10 leases and a forward-moving clock; "
         "a case is one operation; distinct = distinct (history index, op index); non-trivial = the bucket holds a share with >= 1 lease")
 TRUSTED = ["lean/Tahoe/Storage/Lease.lean, Mutable.lean, Slot.lean are hand transcriptions of the lease code paths",
@@ -41,16 +41,21 @@ def gen_history(rng, nops):
     now = rng.randrange(0, 2000)
     pre = rng.sample(pool, rng.randrange(0, len(pool) + 1))[:10]
 
-    def lease_tuples(ls, far=False):
-        return [(1, (now + RENEWAL + rng.choice([0, 5, 10 ** 6])) if not far else 4 * 10 ** 8, unhx(r), unhx(c)) for (r, c) in ls]
+    def lease_tuples(ls, far=False, holes=False):
+        out = [(1, (now + RENEWAL + rng.choice([0, 5, 10 ** 6])) if not far else 4 * 10 ** 8, unhx(r), unhx(c)) for (r, c) in ls]
+        if holes and len(out) >= 2:
+            # empty slots in the middle of the table, as an earlier cancel_lease leaves them (never the last one)
+            for i in rng.sample(range(len(out) - 1), rng.randrange(1, max(2, len(out) // 2))):
+                out[i] = (0, 0, b"", b"")
+        return out
     if kind in ("mut1", "mutmix"):
         data = sc.rand_bytes(rng, rng.randrange(0, 60))
-        ops.append(["put", 0, sc.rle(sc.fabricate_mutable(1, sc.NODEID, unhx(WE), data, lease_tuples(pre), extra_gap=rng.choice([0, 9])))])
+        ops.append(["put", 0, sc.rle(sc.fabricate_mutable(1, sc.NODEID, unhx(WE), data, lease_tuples(pre, holes=rng.random() < 0.3), extra_gap=rng.choice([0, 9])))])
     if kind in ("mut2", "mutmix"):
         n = 1 if kind == "mutmix" else 0
         data = sc.rand_bytes(rng, rng.randrange(0, 60))
         if rng.random() < 0.5:
-            ops.append(["put", n, sc.rle(sc.fabricate_mutable(2, sc.NODEID, unhx(WE), data, lease_tuples(pre[:rng.randrange(0, len(pre) + 1)])))])
+            ops.append(["put", n, sc.rle(sc.fabricate_mutable(2, sc.NODEID, unhx(WE), data, lease_tuples(pre[:rng.randrange(0, len(pre) + 1)], holes=rng.random() < 0.3)))])
         else:
             p = rng.choice(pool)
             ops.append(["rtw", now, 10 ** 12, WE, p[0], p[1], rng.random() < 0.7, [[n, [], [[0, hx(data)]], None]], []])
@@ -64,6 +69,22 @@ def gen_history(rng, nops):
     for _ in range(nops):
         now += rng.choice([0, 0, 1, 3600, 86400, 40 * 86400])
         r = rng.random()
+        if rng.random() < 0.17:
+            # the lease crawler (or an operator) cancels a lease by its cancel secret: leaves a hole in a mutable
+            # container, re-packs an immutable one; the history then goes on with add / renew / writes / listings
+            c = rng.choice(pool)[1] if rng.random() < 0.85 else sec(rng)
+            nshare = rng.choice([0, 0, 1]) if kind in ("mutmix", "imm1", "imm2") else 0
+            ops.append(["cancel", nshare, rng.choice(["secret", "crawler"]), c])
+            if rng.random() < 0.5:
+                ops.append(["leases"])
+            if rng.random() < 0.6:
+                # go on with a secret that is probably still on the share, now possibly behind a hole
+                q = rng.choice(pool)
+                if rng.random() < 0.5:
+                    ops += [["order"], ["addlease", now, 10 ** 12, q[0], q[1]]]
+                else:
+                    ops += [["order"], ["renew", now, q[0]]]
+            continue
         if r < 0.4:
             p = rng.choice(pool) if rng.random() < 0.75 else [sec(rng), sec(rng)]
             ops += [["order"], ["addlease", now, rng.choice([10 ** 12, 10 ** 12, 10 ** 12, 80, 0]), p[0], p[1]]]
@@ -95,11 +116,13 @@ def container_version(raw):
 
 
 class Monitor:
-    """The C25 statement on the real server."""
+    """The C25 statement on the real server.  The leases a container holds are read from its RAW BYTES with the
+    harness's own parser (sc.parse_leases), not through get_leases, so that a lease the code can no longer see is
+    still known to the monitor."""
 
     def __init__(self, ctx, hist, hi):
         self.ctx, self.hist, self.hi, self.opi = ctx, hist, hi, -1
-        self.secrets = [unhx(s) for s in sc.secrets_of(hist)]
+        self.secrets = [unhx(s) for s in sc.secrets_of(hist) if unhx(s) != b"\x00" * 32]
 
     def viol(self, what, sig, detail):
         self.ctx.violation(what, {"history": self.hist, "op_index": self.opi}, sig, detail)
@@ -107,31 +130,27 @@ class Monitor:
     def stored(self, raw, secret):
         return secret if container_version(raw)[1] == 1 else sc.blake(secret)
 
+    @staticmethod
+    def parsed(raw):
+        return {n: sc.parse_leases(v) for n, v in raw.items()}
+
     def __call__(self, impl, op, phase, info):
         ctx = self.ctx
         if phase == "before":
             self.opi += 1
-            if op[0] in ("addlease", "renew", "rtw"):
+            if op[0] in ("addlease", "renew", "rtw", "cancel"):
                 info["raw"] = impl.raw()
-                info["leases"] = impl.leases()
             return
         kind = op[0]
-        if kind not in ("addlease", "renew", "rtw"):
+        if kind not in ("addlease", "renew", "rtw", "cancel"):
             return
-        raw0, l0 = info["raw"], info["leases"]
-        raw1, l1 = impl.raw(), impl.leases()
+        raw0, raw1 = info["raw"], impl.raw()
+        p0, p1 = self.parsed(raw0), self.parsed(raw1)
         exc = info.get("exc")
         ctx.count("%s:%s" % (kind, type(exc).__name__ if exc else "ok"))
-        # never shortens, for every operation: a lease present before is still there with expiry >= old
-        for n in l0:
-            if n not in l1:
-                continue
-            for i, (o, e, r, c, nid) in enumerate(l0[n]):
-                same = [l for l in l1[n] if l[2] == r and l[3] == c]
-                if not same:
-                    self.viol("a lease disappeared", "lease-lost-" + kind, {"share": n, "index": i})
-                elif max(l[1] for l in same) < e:
-                    self.viol("an operation shortened a lease's expiry", "backdated-" + kind, {"share": n, "index": i})
+        holes = any(len(p0[n]) and [l[0] for l in p0[n]] != list(range(len(p0[n]))) for n in p0)
+        if holes:
+            ctx.count("state:lease-table-with-holes")
         # new-format containers never hold a secret in cleartext
         for n, raw in raw1.items():
             if container_version(raw)[1] == 2:
@@ -139,68 +158,96 @@ class Monitor:
                     if s in raw:
                         self.viol("a v2 container holds a lease secret in cleartext", "v2-cleartext-secret", {"share": n})
                 ctx.count("v2-container-scanned")
-        if kind == "addlease":
-            (_, now, avail, renew, cancel) = op
+        if kind == "cancel":
+            (_, n, mode, csec) = op
+            if n in p0 and exc is None:
+                want = [l for l in p0[n] if l[4] != self.stored(raw0[n], unhx(csec))]
+                got = p1.get(n, [])
+                if [l[1:] for l in got] != [l[1:] for l in want]:
+                    self.viol("cancel_lease did not remove exactly the leases with that cancel secret", "cancel-wrong-set",
+                              {"share": n, "before": len(p0[n]), "after": len(got), "want": len(want)})
+            ctx.case((self.hi, self.opi) if any(p0.values()) else None)
+            return
+        # every operation of the statement: a lease present before is still there with the same secrets and an
+        # expiry that is not smaller
+        for n in p0:
+            if n not in p1:
+                continue
+            for (slot, o, e, r, c) in p0[n]:
+                same = [l for l in p1[n] if l[3] == r and l[4] == c]
+                if not same:
+                    self.viol("a lease disappeared", "lease-lost-" + kind, {"share": n, "slot": slot})
+                elif max(l[2] for l in same) < e:
+                    self.viol("an operation shortened a lease's expiry", "backdated-" + kind, {"share": n, "slot": slot})
+        # ... and is still LISTED by get_leases / get_slot_leases (a lease the server cannot see has not survived)
+        listed = impl.leases()
+        for n in p1:
+            have = set((l[2], l[3]) for l in listed.get(n, []))
+            for (slot, o, e, r, c) in p1[n]:
+                if (r, c) not in have:
+                    self.viol("a live lease record is not listed by get_leases after the operation",
+                              "live-lease-not-listed-after-" + kind, {"share": n, "slot": slot, "holes_before": holes})
+        if kind in ("addlease", "rtw"):
+            if kind == "addlease":
+                (_, now, avail, renew, cancel) = op
+                targets = [n for n in p1 if n in p0]
+            else:
+                (_, now, avail, we, renew, cancel, rl, tw, rv) = op
+                targets = [n for n in p1 if n in p0 and rl and exc is None and n in [e[0] for e in tw]]
+                if not rl and exc is None:
+                    for n in p0:
+                        if n in p1 and p1[n] != p0[n]:
+                            self.viol("a data write altered the leases", "leases-changed-by-data-write", {"share": n})
+                        ctx.count("rtw:leases-preserved-checked")
             new_exp = now + RENEWAL
-            for n in l1:
-                if n not in l0:
-                    continue
+            for n in targets:
                 want_r = self.stored(raw0[n], unhx(renew))
-                idx = [i for i, l in enumerate(l0[n]) if l[2] == want_r]
-                if idx:
-                    ctx.count("addlease:existing-secret")
-                    i = idx[0]
-                    if len(l1[n]) != len(l0[n]):
-                        self.viol("adding a lease with an existing renew secret changed the number of leases",
-                                  "duplicate-lease-added", {"share": n, "before": len(l0[n]), "after": len(l1[n])})
+                before = [l for l in p0[n] if l[3] == want_r]
+                after = [l for l in p1[n] if l[3] == want_r]
+                if before:
+                    ctx.count(kind + ":existing-secret" + ("-behind-hole" if holes else ""))
+                    if len(after) != len(before) or len(p1[n]) != len(p0[n]):
+                        self.viol("adding a lease with an existing renew secret changed the number of leases (duplicate)",
+                                  "duplicate-lease-added", {"share": n, "before": len(p0[n]), "after": len(p1[n]),
+                                                            "holes_before": holes})
                     elif exc is not None:
-                        # the call raised (NoSpace on another share of the bucket): the statement only demands that
-                        # nothing is duplicated or shortened, which is checked above
                         ctx.count("addlease:aborted-by-error")
-                    elif l1[n][i][1] != max(l0[n][i][1], new_exp):
+                    elif after[0][2] != max(before[0][2], new_exp):
                         self.viol("add with an existing renew secret did not set expiry to max(old, new)", "renew-expiry-wrong",
-                                  {"share": n, "old": l0[n][i][1], "new": new_exp, "got": l1[n][i][1]})
-                    others = [(a, b) for j, (a, b) in enumerate(zip(l0[n], l1[n])) if j != i]
-                    if any(a != b for a, b in others):
+                                  {"share": n, "old": before[0][2], "new": new_exp, "got": after[0][2]})
+                    if [l for l in p1[n] if l[3] != want_r] != [l for l in p0[n] if l[3] != want_r] and len(p1[n]) == len(p0[n]):
                         self.viol("renewing one lease altered another", "other-lease-changed", {"share": n})
                 elif exc is None:
-                    ctx.count("addlease:fresh-secret")
-                    if len(l1[n]) != len(l0[n]) + 1:
+                    ctx.count(kind + ":fresh-secret")
+                    if len(p1[n]) != len(p0[n]) + 1:
                         self.viol("adding a lease with a fresh secret did not add exactly one lease", "fresh-lease-count",
-                                  {"share": n, "before": len(l0[n]), "after": len(l1[n])})
-                    elif not any(l[2] == want_r and l[1] == new_exp for l in l1[n]):
-                        self.viol("the added lease is not listed with the new expiry", "fresh-lease-missing", {"share": n})
+                                  {"share": n, "before": len(p0[n]), "after": len(p1[n])})
+                    elif not any(l[3] == want_r and l[2] == new_exp for l in p1[n]):
+                        self.viol("the added lease is not recorded with the new expiry", "fresh-lease-missing", {"share": n})
         elif kind == "renew":
             (_, now, secret) = op
-            known = [n for n in l0 if any(l[2] == self.stored(raw0[n], unhx(secret)) for l in l0[n])]
+            known = [n for n in p0 if any(l[3] == self.stored(raw0[n], unhx(secret)) for l in p0[n])]
             if not known:
                 ctx.count("renew:unknown-secret")
                 if exc is None or type(exc).__name__ != "IndexError":
                     self.viol("renewing with an unknown secret did not report an error", "unknown-renew-no-error", None)
                 if raw1 != raw0:
                     self.viol("renewing with an unknown secret changed a container", "unknown-renew-changed-files", None)
-            else:
-                ctx.count("renew:known-secret")
-                for n in known:
-                    if exc is None or len(known) == len(l0):
+            elif len(known) == len(p0):
+                ctx.count("renew:known-secret" + ("-behind-hole" if holes else ""))
+                if exc is not None:
+                    self.viol("renewing with a secret that every share of the bucket knows raised %s" % type(exc).__name__,
+                              "known-renew-raised", {"holes_before": holes})
+                else:
+                    for n in known:
                         want_r = self.stored(raw0[n], unhx(secret))
-                        i = [j for j, l in enumerate(l0[n]) if l[2] == want_r][0]
-                        if exc is None and l1[n][i][1] != max(l0[n][i][1], now + RENEWAL):
+                        b0 = [l for l in p0[n] if l[3] == want_r][0]
+                        a0 = [l for l in p1[n] if l[3] == want_r]
+                        if not a0 or a0[0][2] != max(b0[2], now + RENEWAL):
                             self.viol("renew did not set expiry to max(old, new)", "renew-expiry-wrong", {"share": n})
-        elif kind == "rtw":
-            (_, now, avail, we, renew, cancel, rl, tw, rv) = op
-            for n in l0:
-                if n in l1 and exc is None:
-                    if not rl:
-                        if l1[n] != l0[n]:
-                            self.viol("a data write altered the leases", "leases-changed-by-data-write", {"share": n})
-                        ctx.count("rtw:leases-preserved-checked")
-                    else:
-                        want_r = self.stored(raw0[n], unhx(renew))
-                        for i, l in enumerate(l0[n]):
-                            if l[2] != want_r and (i >= len(l1[n]) or l1[n][i] != l):
-                                self.viol("a data write altered a lease other than the request's own", "other-lease-changed-by-rtw", {"share": n})
-        nontrivial = any(len(v) > 0 for v in l0.values())
+            else:
+                ctx.count("renew:known-to-some-shares")
+        nontrivial = any(len(v) > 0 for v in p0.values())
         ctx.case((self.hi, self.opi) if nontrivial else None)
 
 
